@@ -512,6 +512,23 @@ func genC10(g *Rng, tier string, emit func(Op)) {
 						e2, d2, c2, v2 := m.f(cloneEvs(evs))
 						emit(c.updateOp(e2, accIdx, d2, c2, v2, transport, m.name))
 					}
+					// the framing of the signed message itself (a CBOR map of message and signature): an
+					// entry lost, renamed or emptied, each right after the genuine message has been
+					// verified (nothing of an earlier verification may fill the gap)
+					if len(evs) > 0 {
+						framings := [][]byte{{0xa0}, {0xa1}, {}}
+						for k := 0; k < 10 && k < len(data); k++ {
+							d := append([]byte{}, data...)
+							d[k] ^= 0x01
+							framings = append(framings, d)
+						}
+						for _, d := range framings {
+							emit(c.updateOp(cloneEvs(evs), accIdx, data, counter, kp, transport, "genuine-before-framing"))
+							o := c.updateOp(cloneEvs(evs), accIdx, d, counter, kp, transport, "signed-message-framing")
+							o["fkey"] = "C10/signed-message-framing"
+							emit(o)
+						}
+					}
 					// double corruptions (sample)
 					for k := 0; k < ndouble/maxLen/3+1; k++ {
 						m1, m2 := muts[g.intn(len(muts))], muts[g.intn(len(muts))]
